@@ -1,30 +1,5 @@
-(* C03 — entry points of the extracted model for the generic OCaml driver. *)
-From Coq Require Import List ZArith Bool.
-From Verif Require Import Lib.Wire C03.Model C03.Spec C03.Codec.
-Import ListNotations.
-Open Scope Z_scope.
-
-Definition run_case (inp : list Z) : list Z :=
-  let '(cfg, ops) := decode inp in
-  flat_map enc_obs (run cfg init_state ops).
-
-Definition prop_case (inp obs : list Z) : Z :=
-  let '(cfg, ops) := decode inp in
-  match obs with
-  | [-777777] => 99
-  | _ => prop_code cfg ops (parse_obs (length ops) obs)
-  end.
-
-(* non-trivial: at least one attempt admitted and at least one rejected (by the model) *)
-Definition nontrivial_case (inp : list Z) : bool :=
-  let '(cfg, ops) := decode inp in
-  let os := run cfg init_state ops in
-  let att := map snd (filter (fun x => match fst x with OAttempt _ => true | _ => false end)
-                             (combine ops os)) in
-  existsb (fun o => o_status o =? 0) att && existsb (fun o => o_status o =? 1) att.
-
-Definition finding_sig (inp obs : list Z) : Z := 0.
-
+(* C03 — extraction of the entry points (coq/C03/Entry.v) for the generic OCaml driver. *)
+From Verif Require Import C03.Entry.
 Require Extraction.
 Require Import ExtrOcamlBasic.
 Extraction "model.ml" run_case prop_case nontrivial_case finding_sig.
